@@ -93,6 +93,7 @@ def dec_item(it, xs):
     if t == 'a': return numpy.array(it[1], dtype=int)       # constant index ndarray
     if t == 'l': return it[1]                                # constant index as (nested) list
     if t == 'x': return xs[it[1]]                            # operand (function index array)
+    if t == 'm': return numpy.array(it[1], dtype=bool)       # boolean mask (supported by Basis.__getitem__ only)
     raise ValueError(it)
 
 
